@@ -22,6 +22,13 @@ def keys_for(items, labels, kind, n):
             ks.append(([2, cps(s)], s))
     for s in list(dict.fromkeys(labels))[:3] + ["absent"]:
         ks.append(([2, cps(s)], api.Named(s)))          # the same texts as str-subclass instances
+    import unicodedata
+    for s in list(dict.fromkeys(labels)) + ["Met\xe0 piede", "\xe9\u20ac"]:
+        for form in ("NFD", "NFKD"):
+            k = unicodedata.normalize(form, s)          # another spelling of the same glyphs (letter + combining accent): another key
+            if k != s and k not in seen:
+                seen.append(k)
+                ks.append(([2, cps(k)], k))
     return ks, [([3], None), ([4, 1], 1.5), ([4, 2], b"c7"), ([4, 3], ["c7"]), ([4, 4], (0,)), ([4, 5], object())]
 
 
